@@ -692,7 +692,11 @@ def main(args):
     if args.runs is not None:
         nhist = args.runs
     t0 = time.time()
-    hs_h, hs_o = (0, 4242)
+    # the interpreter hash seeds of the history process and of the fresh-process oracle are part of
+    # the world and derive from VERIF_SEED, so different seeds explore different hash-seed pairs
+    hs_h, hs_o = (seed * 7919) % 10007, (seed * 104729 + 4242) % 10007
+    if hs_h == hs_o:
+        hs_o += 1
     with Farm(hashseed=hs_h, preload=["checks.c03_history"]) as farm_h, Farm(hashseed=hs_o, preload=["checks.c03_history"]) as farm_o:
         from simkit import seamprobe
 
